@@ -5,8 +5,7 @@
      space) and nine value positions;
  A2  the same trees with each leaf replaced by every operand kind (variable,
      macro, register, user call, built-in call);
- B   every typed tree with 3 operators (thorough: 4 over a reduced operator
-     set), plus every single leading-minus and logical-zero variant, in the
+ B   every typed tree with 3 operators (thorough: 4), plus every single leading-minus and logical-zero variant, in the
      three renderings;
  C   built-in functions on argument grids against their prose definitions;
  D   [random a b]: the random source is replaced by one whose primitive
@@ -139,7 +138,7 @@ def _cases(part, tier):
                 for bind in binders:
                     yield 'E', bind((('print', ('call', fn, args)), ('print', ('bin', '+', ('call', fn, args), N(1)))))
     elif part == 'B4':
-        for t in G.trees(4, ('^', '*', '/', '-', '<', '==', 'and', 'or')):
+        for t in G.trees(4):          # all 14 operators
             yield 'B4', (('print', t),)
 
 
